@@ -62,6 +62,7 @@ def gen_case(rng):
     clock = rng.choice([0, 10**6, 10**9, 2**62 // 1000 * 1000])
     ops = []
     cur = clock
+    untils = []        # wake-up times asked for so far: a clock step may land exactly on one
     ticks = 0          # total of all Tick instructions submitted so far (the model clock never exceeds cur + ticks)
     nsub = 0
     for _ in range(rng.randint(3, 25)):
@@ -71,6 +72,7 @@ def gen_case(rng):
             prio = None if pr < 0.4 else str(rng.choice([0, 0, 1, 1, -1, 2, I64MIN, I64MAX]))
             body = gen_body(rng, uid, cur)
             ticks += sum(int(i["d"]) for i in body if i["i"] == "tick")
+            untils += [int(i["t"]) for i in body if i["i"] == "until"]
             ops.append({"op": "submit", "body": body, "prio": prio})
             nsub += 1
         elif k < 0.70:
@@ -84,7 +86,11 @@ def gen_case(rng):
             ops.append({"op": "pass", "deadline": str(min(deadline, U64))})
             cur += 0  # bodies may tick; the model knows
         elif k < 0.82:
-            cur = min(U64 // 1000 * 1000, cur + ticks + rng.choice([1, 2, 5, 20, 200]) * 1000)
+            exact = [t for t in untils if t >= cur + ticks]
+            if exact and rng.random() < 0.4:
+                cur = min(exact)          # land exactly on a wake-up time (the boundary of "due")
+            else:
+                cur = min(U64 // 1000 * 1000, cur + ticks + rng.choice([1, 2, 5, 20, 200]) * 1000)
             ops.append({"op": "clock", "c": str(cur)})
         elif k < 0.91:
             ops.append({"op": "try_resume", "i": rng.randrange(nsub)})
